@@ -128,6 +128,9 @@ type Opts struct {
 	PushSet bool
 	// NoProxy connects the client straight to the server
 	NoProxy bool
+	// ClientReadyOnly: NewPair waits for the client's Ready only (what a user
+	// of the client sees), not for the server's
+	ClientReadyOnly bool
 	// Tune is called before the client and the server are started
 	Tune func(c *arpc.Client, s *arpc.Server)
 }
@@ -206,7 +209,7 @@ func newPair(src *am.Machine, o Opts) (*Pair, error) {
 	}
 	c.Start(nil)
 	if !waitCh(c.Mach.When1(ssrpc.ClientStates.Ready, ctx), 10*time.Second) ||
-		!waitCh(s.Mach.When1(ssrpc.ServerStates.Ready, ctx), 10*time.Second) {
+		(!o.ClientReadyOnly && !waitCh(s.Mach.When1(ssrpc.ServerStates.Ready, ctx), 10*time.Second)) {
 		p.Close()
 		return nil, fmt.Errorf("client/server Ready timeout")
 	}
